@@ -21,6 +21,7 @@ TERR = "aiomysensors.exceptions.TransportError"
 def run(ctx: Ctx, chk) -> None:
     chk.assume("A1", "A3", "A4", "A5", "A7")
     chk.run_rule(topic_map, ctx)
+    chk.run_rule(topic_map_writer, ctx)
     chk.run_rule(fifo1, ctx)
     chk.run_rule(task_esc, ctx)
     chk.run_rule(eea_mqtt, ctx)
@@ -267,17 +268,40 @@ def topic_map(ctx: Ctx, chk) -> None:
     want_list = ("listcat", ("slice", ("split", ("param", topic_p), ("const", "/"), None), -5, None), ("list", (("param", payload_p),)))
     ok = term == ("join", ("const", ";"), want_list)
     key = f"{rd.fq}::return"
+    def _opaque(t_) -> str | None:
+        if isinstance(t_, tuple):
+            if t_ and t_[0] == "attr" and isinstance(t_[1], str) and "(" in t_[1]:
+                return t_[1]
+            for x_ in t_:
+                r_ = _opaque(x_)
+                if r_:
+                    return r_
+        return None
+
     if ok:
         chk.ok(rule, key, "';'.join(topic.split('/')[-5:] + [payload])", ctx.loc(rd, rd.node))
+    elif _opaque(term):
+        # the line comes out of a call the string evaluation does not look into (a record built by a classmethod ...)
+        raise AnalysisError(f"TOPIC-MAP: the line built from a received topic is `{_opaque(term)[:70]}` - the result of a call that is not written out: reader shape not modelled")
     else:
         chk.refute(rule, key, f"the line built from a received topic is {show(term)}; it must be the last five topic levels and the payload joined by ';'", ctx.loc(rd, rd.node))
+
+
+def topic_map_writer(ctx: Ctx, chk) -> None:
+    rule = "TOPIC-MAP"
+    chk.rule(rule, "writer: payload is everything after the 5th ';' (DELIM-1), topic = out-prefix + '/' + the five fields joined by '/', QoS = int(ack) (see the reader half for the full statement)")
+    mt = ctx.cls(MT)
     # ---- writer
     wr = mt.find_method("_parse_message_to_mqtt")
     if wr is None:
         raise AnalysisError("anchor vanished: MQTTTransport._parse_message_to_mqtt")
     before = chk.rules[rule]["refuted"]
     wr = ctx.inl(wr, lambda h: True)
-    n = codec.check_delim1(ctx, chk, rule, only_funcs={wr.fq} | {h.fq for h in getattr(wr, "inlined_funcs", [])})
+    from .common import reachable_funcs
+
+    # the split may sit in a helper that is not written out (a classmethod constructor of a record ...): every function
+    # the writer reaches is looked at
+    n = codec.check_delim1(ctx, chk, rule, only_funcs={wr.fq} | {h.fq for h in getattr(wr, "inlined_funcs", [])} | set(reachable_funcs(ctx, wr)))
     chk.floor(rule, "split sites in _parse_message_to_mqtt", n, 1)
     if chk.rules[rule]["refuted"] == before:
         chk.instance(rule)
